@@ -37,6 +37,9 @@ static void __attribute__((constructor))
 pixman_constructor (void)
 {
     global_implementation = _pixman_choose_implementation ();
+#ifdef PIXMAN_VERIF
+    _pixman_verif_install_file_sink ();
+#endif
 }
 #endif
 
